@@ -299,3 +299,52 @@ Section NextReduced.
     - apply ties_zero_sub. exact Hz.
   Qed.
 End NextReduced.
+
+(* ---- C07: the whole walk.  When every candidate dominates all the candidates sorted after it (no tie anywhere),
+        following call_next visits the candidates in sorted order, each once, and ends with 'No method'. ---- *)
+Definition total_chain (scs : list cand) : Prop :=
+  forall pre c suf, scs = pre ++ c :: suf -> grp [c] suf = [].
+
+Lemma total_chain_tail a r : total_chain (a :: r) -> total_chain r.
+Proof. intros H pre c suf E. apply (H (a :: pre) c suf). simpl. now rewrite E. Qed.
+
+Lemma below_walk : forall pre scs c suf,
+  total_chain scs -> NoDup (map cid scs) -> scs = pre ++ c :: suf -> below scs (cid c) = Some suf.
+Proof.
+  induction pre as [|a pre IH]; intros scs c suf Ht Hnd E; subst scs; simpl.
+  - rewrite (proj1 (grp_single_nil_iff c suf) (Ht [] c suf eq_refl)). now rewrite Nat.eqb_refl.
+  - rewrite (proj1 (grp_single_nil_iff a (pre ++ c :: suf)) (Ht [] a (pre ++ c :: suf) eq_refl)).
+    simpl in Hnd. inversion Hnd as [|? ? Hn Hr]; subst.
+    destruct (Nat.eqb (cid a) (cid c)) eqn:E.
+    + exfalso. apply Nat.eqb_eq in E. apply Hn. rewrite E. rewrite map_app. apply in_app_iff. right. now left.
+    + apply (IH (pre ++ c :: suf) c suf); [eapply total_chain_tail; exact Ht|exact Hr|reflexivity].
+Qed.
+
+Section Walk.
+  Variable sub : nat -> nat -> bool.
+  Variable hasm : nat -> nat -> bool.
+  Variable chk : nat -> nat -> bool.
+  Variable sub_fresh : nat -> bool.
+  Notation candidates := (candidates sub hasm chk sub_fresh).
+  Notation lookup := (lookup sub hasm chk sub_fresh).
+  Notation lookup_next := (lookup_next sub hasm chk sub_fresh).
+
+  (* the first call runs the first candidate; call_next from the i-th runs the (i+1)-th; from the last: No method *)
+  Theorem walk_in_sorted_order ms k cs :
+    candidates ms k = Ok cs -> NoDup (map cid cs) -> total_chain (sort_desc cs) ->
+    lookup ms k = match sort_desc cs with [] => ONoMethod | c1 :: _ => ORun (cid c1) end /\
+    forall pre c suf, sort_desc cs = pre ++ c :: suf ->
+      lookup_next ms (cid c) k = match suf with [] => ONoMethod | c2 :: _ => ORun (cid c2) end.
+  Proof.
+    intros Hc Hnd Ht. split.
+    - rewrite (lookup_unfold _ _ _ _ _ _ _ Hc). destruct (sort_desc cs) as [|c1 rest] eqn:Es; [reflexivity|].
+      rewrite (Ht [] c1 rest eq_refl). reflexivity.
+    - intros pre c suf E.
+      assert (Hnd' : NoDup (map cid (sort_desc cs))).
+      { eapply Permutation_NoDup; [apply Permutation_map; apply sort_desc_perm|exact Hnd]. }
+      rewrite (next_is_below sub hasm chk sub_fresh ms k cs (cid c) suf Hc (below_walk pre _ c suf Ht Hnd' E)).
+      unfold lookup_sorted. destruct suf as [|c2 r2]; [reflexivity|].
+      assert (E2 : sort_desc cs = (pre ++ [c]) ++ c2 :: r2) by (rewrite <- app_assoc; exact E).
+      rewrite (Ht _ c2 r2 E2). reflexivity.
+  Qed.
+End Walk.
